@@ -382,14 +382,43 @@ def route (table : List (List String × List (String × String))) (t : LType)
 
 /-! ### marginalisation over draws -/
 
-/-- `check_dist`: True = sharp (one evaluation) -/
+/-- `LensDistribution.draw_bool(**kwargs_lens)`: does `draw_lens` make a non-degenerate draw
+    for this lens? -/
+def lensDrawBool (cfg : LensDist α) (kw : Dict α) (isZero : α → Bool) : Bool :=
+  (cfg.lambdaSampling && !isZero (lambdaSigma cfg kw))
+  || (cfg.gammaInSampling && !isZero (getD kw "gamma_in_sigma" 0.0))
+  || (cfg.logM2lSampling && !isZero (getD kw "log_m2l_sigma" 0.0))
+  || (cfg.gammaPlIndex.isNone && cfg.gammaPlGlobalSampling && cfg.gammaPlGlobalGauss
+        && !isZero (getD kw "gamma_pl_sigma" 0.0))
+
+/-- `AnisotropyDistribution.draw_bool(**kwargs_kin)` -/
+def anisoDrawBool (cfg : AnisoDist α) (kw : Dict α) (isZero : α → Bool) : Bool :=
+  cfg.sampling &&
+  (((cfg.model = "OM" ∨ cfg.model = "const" ∨ cfg.model = "GOM")
+      && (cfg.distribution = "GAUSSIAN" ∨ cfg.distribution = "GAUSSIAN_SCALED"
+            ∨ cfg.distribution = "GAUSSIAN_TAN_RAD")
+      && !isZero (getD kw "a_ani_sigma" 0.0))
+   || (cfg.model = "GOM" && (cfg.distribution = "GAUSSIAN" ∨ cfg.distribution = "GAUSSIAN_SCALED")
+      && !isZero (getD kw "beta_inf_sigma" 0.0)))
+
+/-- the source magnitude reaches the data likelihood only for the magnification types -/
+def magType (t : LType) : Bool := t = .Mag || t = .TDMag || t = .TDMagMagnitude
+
+/-- `check_dist`: True = sharp (one evaluation): no scatter that applies to this lens is non-zero -/
 def checkDist (cfg : LensCfg α) (h : Hyper α) (isZero : α → Bool) : Except String Bool :=
   match drawBool cfg.los h.los isZero with
   | .error e => .error e
   | .ok db =>
-    .ok (isZero (getD h.kin "a_ani_sigma" 0.0) && isZero (getD h.lens "lambda_mst_sigma" 0.0)
-      && isZero (getD h.kin "beta_inf_sigma" 0.0) && isZero (getD h.source "sigma_sne" 0.0)
-      && isZero (getD h.lens "gamma_pl_sigma" 0.0) && !db)
+    .ok (!(lensDrawBool cfg.dist h.lens isZero || anisoDrawBool cfg.aniso h.kin isZero || db
+           || (magType cfg.ltype && !isZero (getD h.source "sigma_sne" 0.0))))
+
+/-- the evaluations performed by `hyper_param_likelihood`: one when sharp, `numDraws` otherwise -/
+def runDraws {β : Type} (one : M α β) : Nat → M α (List β)
+  | 0 => pureM []
+  | n + 1 => bindM one fun b => bindM (runDraws one n) fun bs => pureM (b :: bs)
+
+def hyperEvals {β : Type} (one : M α β) (sharp : Bool) (numDraws : Nat) : M α (List β) :=
+  if sharp then runDraws one 1 else runDraws one numDraws
 
 /-- the N-draw branch of `hyper_param_likelihood` given the N single-draw log-likelihoods:
     `log( (Σ_{exp l finite and > 0} exp l) / N )`, `none` = −inf -/
